@@ -287,6 +287,14 @@ class NPShim:
 
     asanyarray = asarray
 
+    def einsum(self, subscripts, *operands, **kw):
+        ops = [np.asarray(to_obj(unwrap(o)), dtype=object) for o in operands]
+        return np.einsum(subscripts, *ops)
+
+    def hypot(self, a, b):
+        a, b = to_obj(unwrap(a)), to_obj(unwrap(b))
+        return self.sqrt(a * a + b * b)
+
     def ascontiguousarray(self, x, dtype=None):
         return to_obj(unwrap(x))        # memory layout is not part of the value
 
